@@ -91,13 +91,31 @@ class UpdateReferences:
           found = True
       elif isinstance(elem, gfapy.OrientedLine):
         if elem.line is oldref:
-          if hasattr(oldref, "is_complement") and \
-                            oldref.is_complement(newref):
+          if self.__is_complement_of_replaced_link(oldref, newref):
             elem.orient = gfapy.invert(elem.orient)
           elem.line = newref
           found = True
     if newref is None and found:
       lst[:] = [e for e in lst if e is not None]
+
+  @staticmethod
+  def __is_complement_of_replaced_link(oldref, newref):
+    """
+    Is newref the complement of the link (placeholder) oldref it replaces?
+
+    The placeholder created by a path may have an unspecified overlap, thus
+    the same compatibility test is used, as when the path finds the link
+    already defined (Path._initialize_links).
+    """
+    if not hasattr(oldref, "is_complement"):
+      return False
+    if newref is not None and \
+        hasattr(newref, "is_compatible_complement") and \
+        hasattr(oldref, "oriented_from"):
+      return newref.is_compatible_complement(oldref.oriented_from,
+                                             oldref.oriented_to,
+                                             oldref.overlap)
+    return oldref.is_complement(newref)
 
   def __update_field_references(self, oldref, newref, possible_fieldnames):
     for fn in possible_fieldnames:
